@@ -338,6 +338,11 @@ func (in *Interp) wireCopy(fr *frame, p *Value) *Value {
 		arr = append(arr, in.wireCopy(fr, kp))
 	}
 	dst[fi("Children")] = Slice{arr: &arr, n: len(arr), cp: len(arr)}
+	// the wire carries the node's bytes, not its tree: AppendChild copied each child's
+	// encoding when it was appended, so a child changed afterwards is not what travels
+	if in.staleChild != "" {
+		in.unsupported("vWire: %s (the node's bytes no longer describe its tree)", in.staleChild)
+	}
 	isConstructed := in.branch(in.eqVal(ttype, Int(32)), "wire type")
 	dst[fi("Value")] = Iface{}
 	if !isConstructed {
